@@ -94,6 +94,14 @@ def IsSelf (bindIp : Text) (wildcard : Bool) (listenPort : Int) (dstIp : Text) (
     (isLocalAddr : Text → Bool) : Prop :=
   dstPort = listenPort ∧ isLocalAddr dstIp = true ∧ (wildcard = true ∨ bindIp = dstIp)
 
+/-- What each query of a session must read, by the property: its *own* reply as long as the
+helper lives (replies pair with requests one to one, nothing else travels on the channel), end
+of file afterwards. -/
+def sessExpected : Bool → List SOp → List (Option ReadLine)
+  | _, [] => []
+  | alive, .host fails :: r => none :: sessExpected (alive && !fails) r
+  | alive, .query reply :: r => some (if alive then .line reply else .eof) :: sessExpected alive r
+
 /-- The text denotes the IPv4 address `x` for the server's `connect`/`sendto`. -/
 def DenotesV4 (t : Text) (x : V4) : Prop := parseV4 t = some (x.a, x.b, x.c, x.d)
 
